@@ -74,42 +74,85 @@ def main():
         json.dump({"pid": os.getpid(), "log": log, "barrier": None, "error": err, "failer": True}, open(args["result"], "w"))
         return 0
 
-    if args.get("barrier"):
-        mon = sys.monitoring
-        tool = 4
-        mon.use_tool_id(tool, "gvmon-c20")
-        targets = ("relations_generator", "derived_feature_generator")
+    if args["role"] == "forkpool":
+        # a parent process that has imported and used gffutils forks its workers (multiprocessing's default start method on
+        # Linux): whatever module-level state exists is inherited by every child
+        gffutils.create_db("chr1\ts\tgene\t1\t9\t.\t+\t.\tID=warm;Parent=x\nchr1\ts\tmRNA\t1\t9\t.\t+\t.\tID=warm2;Parent=warm\n"
+                           "chr1\ts\texon\t1\t9\t.\t+\t.\tID=warm3;Parent=warm2\n", ":memory:", from_string=True).conn.close()
+        parent_log = list(log)
+        del log[:]
+        pids = []
+        for child_args in args["children"]:
+            pid = os.fork()
+            if pid == 0:
+                del log[:]
+                state["barrier"] = None
+                code = 1
+                try:
+                    run_importer(child_args, gffutils, log, state, tmpdir)
+                    code = 0
+                finally:
+                    os._exit(code)
+            pids.append(pid)
+        for pid in pids:
+            os.waitpid(pid, 0)
+        json.dump({"pid": os.getpid(), "log": parent_log}, open(args["result"], "w"))
+        return 0
 
-        def on_start(code, offset):
-            if code.co_name in targets and code.co_filename.endswith("create.py") and state["barrier"] is None:
-                seen_at_arrival = sorted(os.path.basename(p) for p in glob.glob(os.path.join(tmpdir, "*.gffutils")))
+    return run_importer(args, gffutils, log, state, tmpdir)
+
+
+def run_importer(args, gffutils, log, state, tmpdir):
+    mon = sys.monitoring
+    tool = 4
+    try:
+        mon.use_tool_id(tool, "gvmon-c20")
+    except ValueError:
+        pass
+    targets = ("relations_generator", "derived_feature_generator")
+
+    def on_start(code, offset):
+        if code.co_name in targets and code.co_filename.endswith("create.py") and state["barrier"] is None:
+            seen_at_arrival = sorted(os.path.basename(p) for p in glob.glob(os.path.join(tmpdir, "*.gffutils")))
+            timed_out = False
+            if args.get("barrier"):
                 timed_out = wait_for(args["barrier_dir"], args["n"], str(os.getpid()), args.get("barrier_timeout", 20))
                 if args.get("wait_marker"):
                     deadline = time.time() + 30
                     while time.time() < deadline and not os.path.exists(args["wait_marker"]):
                         time.sleep(0.002)
-                seen_at_release = sorted(os.path.basename(p) for p in glob.glob(os.path.join(tmpdir, "*.gffutils")))
-                state["barrier"] = {"arrival": seen_at_arrival, "release": seen_at_release, "timed_out": timed_out,
-                                    "where": code.co_name}
-            return mon.DISABLE
+            seen_at_release = sorted(os.path.basename(p) for p in glob.glob(os.path.join(tmpdir, "*.gffutils")))
+            state["barrier"] = {"arrival": seen_at_arrival, "release": seen_at_release, "timed_out": timed_out,
+                                "where": code.co_name}
+        return mon.DISABLE
 
-        mon.register_callback(tool, mon.events.PY_START, on_start)
-        mon.set_events(tool, mon.events.PY_START)
-    else:
-        # free-running: only observe how many intermediates are visible when ours is live
-        mon = sys.monitoring
-        tool = 4
-        mon.use_tool_id(tool, "gvmon-c20")
+    events = mon.events.PY_START
+    mon.register_callback(tool, mon.events.PY_START, on_start)
+    park = args.get("park")
+    parked = {"lines": [], "done": False, "at": None}
+    if park:
+        # statement-level parking: this importer stops at the k-th distinct line of the named gffutils function until the
+        # neighbour has finished its whole import (or a generous timeout passes)
+        def on_line(code, line):
+            if code.co_name != park["function"] or not code.co_filename.endswith("create.py"):
+                return mon.DISABLE
+            if parked["done"]:
+                return mon.DISABLE
+            if line not in parked["lines"]:
+                parked["lines"].append(line)
+                if len(parked["lines"]) == park["line_index"]:
+                    parked["done"] = True
+                    parked["at"] = line
+                    deadline = time.time() + 40
+                    while time.time() < deadline and not os.path.exists(park["marker"]):
+                        time.sleep(0.002)
+                    parked["released_by_marker"] = os.path.exists(park["marker"])
+            return None
 
-        def on_start(code, offset):
-            if code.co_name in ("relations_generator", "derived_feature_generator") and code.co_filename.endswith("create.py"):
-                if state["barrier"] is None:
-                    seen = sorted(os.path.basename(p) for p in glob.glob(os.path.join(tmpdir, "*.gffutils")))
-                    state["barrier"] = {"arrival": seen, "release": seen, "timed_out": False, "where": code.co_name}
-            return mon.DISABLE
-
-        mon.register_callback(tool, mon.events.PY_START, on_start)
-        mon.set_events(tool, mon.events.PY_START)
+        mon.register_callback(tool, mon.events.LINE, on_line)
+        events = events | mon.events.LINE
+    mon.set_events(tool, events)
+    if not args.get("barrier"):
         time.sleep(args.get("offset_ms", 0) / 1000.0)
 
     t0 = time.time()
@@ -124,14 +167,17 @@ def main():
         del db
     except BaseException as ex:
         err = repr(ex)
+    mon.set_events(tool, 0)
     import gc
     gc.collect()
     # the import has finished (this process is still alive): which of the temp files this process created are still there?
     mine = set(name for ev, name, mode, t in log if ev == "mkstemp")
     still_there = sorted(n for n in mine if os.path.exists(os.path.join(tmpdir, n)))
     json.dump({"pid": os.getpid(), "log": log, "barrier": state["barrier"], "error": err, "t0": t0, "t1": time.time(),
-               "still_there_after_import": still_there},
+               "still_there_after_import": still_there, "parked_at_line": parked["at"], "parked": parked.get("released_by_marker")},
               open(args["result"], "w"))
+    if args.get("done_marker"):
+        open(args["done_marker"], "w").close()
     return 0
 
 
